@@ -227,6 +227,15 @@ func runC13(ctx *Ctx) {
 		}
 		spawn(func() { c13Migrate(ctx, i) })
 	}
+	// (e) a crash right after every commit the database ever made
+	for c := 0; c < ctx.N(20, 400); c++ {
+		i := idx
+		idx++
+		if !ctx.Want(i) {
+			continue
+		}
+		spawn(func() { c13CommitPoints(ctx, i) })
+	}
 	wg.Wait()
 
 	// (d) concurrent readers during multi-key commits (monitor only)
@@ -428,6 +437,26 @@ func c13Readers(ctx *Ctx, i int) {
 			}
 		}()
 	}
+	// a node's spendable balance never drops while it is being linked: it is its trial credit
+	// before, and at least that (the wallet's balance including it) after
+	for r := 0; r < 2; r++ {
+		wg.Add(1)
+		go func(r int) {
+			defer wg.Done()
+			for atomic.LoadInt32(&stop) == 0 {
+				for k := r; k < n && atomic.LoadInt32(&stop) == 0; k += 2 {
+					b, err := st.GetNodeBalance(store.NodeID(fmt.Sprintf("r%03d", k)))
+					if err != nil {
+						continue
+					}
+					atomic.AddInt64(&obs, 1)
+					if b.Credit.Int64() < int64(k+1) {
+						bad.Store(fmt.Sprintf("c13-reader-partial-commit: a reader saw node r%03d with balance %s while it was being linked to a wallet; it holds %d before and at least that after", k, b.Credit.String(), k+1))
+					}
+				}
+			}
+		}(r)
+	}
 	for k := 0; k < n; k++ {
 		id := store.NodeID(fmt.Sprintf("r%03d", k))
 		for try := 0; try < 50; try++ {
@@ -443,4 +472,151 @@ func c13Readers(ctx *Ctx, i int) {
 		mon = append(mon, v.(string))
 	}
 	ctx.Emit(Case{I: i, Kind: "readers", Desc: map[string]interface{}{"mode": "readers", "migrations": n, "observations": obs}, Monitor: mon})
+}
+
+// ---------- (e) crash points at commit granularity ----------
+
+type verEntry struct {
+	version   uint64
+	value     []byte
+	deleted   bool
+	meta      byte
+	expiresAt uint64
+}
+
+// allVersions reads the whole multi-version history of the database.
+func allVersions(db *badger.DB) (map[string][]verEntry, uint64) {
+	hist := map[string][]verEntry{}
+	var max uint64
+	db.View(func(txn *badger.Txn) error {
+		opt := badger.DefaultIteratorOptions
+		opt.AllVersions = true
+		it := txn.NewIterator(opt)
+		defer it.Close()
+		for it.Rewind(); it.Valid(); it.Next() {
+			item := it.Item()
+			e := verEntry{version: item.Version(), deleted: item.IsDeletedOrExpired(), meta: item.UserMeta(), expiresAt: item.ExpiresAt()}
+			if !e.deleted {
+				e.value, _ = item.ValueCopy(nil)
+			}
+			hist[string(item.KeyCopy(nil))] = append(hist[string(item.Key())], e)
+			if e.version > max {
+				max = e.version
+			}
+		}
+		return nil
+	})
+	return hist, max
+}
+
+// c13CommitPoints runs a history on the persistent driver, recording the database version after
+// every operation.  Badger makes commits durable atomically and in order, so the states a kill can
+// leave behind are exactly the states "as of" each commit.  Every commit that is not the single
+// commit of an operation is an intermediate durable state of that operation: the database is
+// rebuilt as of that commit, opened with the driver, and its whole observable state goes to the
+// model, which accepts it only if it equals the state before or after the operation.
+func c13CommitPoints(ctx *Ctx, i int) {
+	rng := ctx.Sub(i)
+	script := genScript(rng, 10+rng.Intn(20), false)
+	// make sure the multi-key operations occur: trial credit then linking
+	script = append(script, &SOp{Op: "SetNode", ID: nodeAlphabet[0]}, &SOp{Op: "AddNodeBal", ID: nodeAlphabet[0], Amount: "100"},
+		&SOp{Op: "AddAcctBal", Acct: acctAlphabet[0], Amount: "7"}, &SOp{Op: "AddAcctNode", Acct: acctAlphabet[0], ID: nodeAlphabet[0]})
+	dir, _ := ioutil.TempDir("", "vharness-commits")
+	defer os.RemoveAll(dir)
+	s, err := badgerstore.Open(badgerOpts(dir).WithNumVersionsToKeep(1 << 20))
+	if err != nil {
+		fatal("badger open: %v", err)
+	}
+	st := &openStore{Store: s, drv: drvBdg, dir: dir}
+	db := s.VerifDB()
+	t := newInterner()
+	var acked []string
+	var done []*SOp
+	var after []uint64 // database version after operation k
+	_, v0 := allVersions(db)
+	for _, o := range script {
+		c := *o
+		opCoq, obsCoq, _ := applySOp(st, t, &c)
+		acked = append(acked, fmt.Sprintf("(%s, %s, %s)", cZ(c.Now), opCoq, obsCoq))
+		done = append(done, &c)
+		_, v := allVersions(db)
+		after = append(after, v)
+	}
+	hist, _ := allVersions(db)
+	s.Close()
+	versions := map[uint64]bool{}
+	for _, es := range hist {
+		for _, e := range es {
+			versions[e.version] = true
+		}
+	}
+	explored, multi := 0, 0
+	for k := range done {
+		prev := v0
+		if k > 0 {
+			prev = after[k-1]
+		}
+		var mids []uint64
+		for v := prev + 1; v < after[k]; v++ {
+			if versions[v] {
+				mids = append(mids, v)
+			}
+		}
+		if len(mids) > 0 {
+			multi++
+		}
+		for _, v := range mids {
+			explored++
+			dir2, _ := ioutil.TempDir("", "vharness-asof")
+			db2, err := badger.Open(badgerOpts(dir2))
+			if err != nil {
+				fatal("badger open: %v", err)
+			}
+			err = db2.Update(func(txn *badger.Txn) error {
+				for key, es := range hist {
+					var best *verEntry
+					for j := range es {
+						if es[j].version <= v && (best == nil || es[j].version > best.version) {
+							best = &es[j]
+						}
+					}
+					if best == nil || best.deleted {
+						continue
+					}
+					e := badger.NewEntry([]byte(key), best.value).WithMeta(best.meta)
+					e.ExpiresAt = best.expiresAt
+					if err := txn.SetEntry(e); err != nil {
+						return err
+					}
+				}
+				return nil
+			})
+			if err != nil {
+				fatal("rebuild: %v", err)
+			}
+			db2.Close()
+			s2, err := badgerstore.Open(badgerOpts(dir2))
+			desc := c13Desc{Mode: "commit-point", Script: done[:k+1], Acked: k, Inflight: done[k],
+				KillAt: fmt.Sprintf("right after commit %d, the first of the commits %v..%d made by operation %d (%s)", v, mids, after[k], k, done[k].Op)}
+			if err != nil {
+				desc.OpenErr = err.Error()
+				ctx.Emit(Case{I: i, Kind: "commit-point", Coq: c13Case(acked[:k], "None", "None", false, nil), Desc: desc,
+					Monitor: []string{"c13-reopen-after-kill-failed: " + err.Error()}})
+				os.RemoveAll(dir2)
+				continue
+			}
+			st2 := &openStore{Store: s2, drv: drvBdg, dir: dir2}
+			inflight := fmt.Sprintf("(Some (%s, %s))", cZ(done[k].Now), opCoqOnly(t, done[k]))
+			probes, pd := c13Probes(st2, t, nil)
+			desc.Probes = pd
+			ctx.Emit(Case{I: i, Kind: "commit-point", Coq: c13Case(acked[:k], inflight, "None", true, probes), Desc: desc})
+			s2.Close()
+			os.RemoveAll(dir2)
+		}
+	}
+	ctx.Count(fmt.Sprintf("commit-points-explored:%d", explored))
+	if explored == 0 {
+		// every operation made at most one commit: nothing in between to crash into
+		ctx.Emit(Case{I: i, Kind: "commit-point", Desc: map[string]interface{}{"mode": "commit-point", "operations": len(done), "operations_with_several_commits": multi}})
+	}
 }
